@@ -408,9 +408,9 @@ CHECKS['C05']['text'] += (" Further named hypotheses: T5.2's ln ps statement is 
 # ---- after the third review (docs/audit/review3_G.md)
 for _pid in ('C04', 'C05', 'C10', 'C11', 'C12'):
   CHECKS[_pid]['text'] = CHECKS[_pid]['text'].replace(
-      "index DYN, 77 theorems,", "index DYN, 82 theorems,").replace(
+      "index DYN, 77 theorems,", "index DYN, 101 theorems,").replace(
       "and every hypothesis is a theorem on the rational M = 3 grid gT.",
-      "and every hypothesis is a theorem on the rational M = 3 grid gT (which is NOT built by ofGrid: a biorthogonal monic-Legendre pair with Walsh longitude columns and rational weights; wf_ofGrid / maskOk_ofGrid_* show that every well-shaped Grid-built record with the structural zeros satisfies WF / MaskOk, but no ofGrid-built witness is exhibited, and for the fast layout the structural zeros of the padded tables remain a hypothesis). "
+      "and every hypothesis is a theorem on the rational M = 3 grid gT (which is NOT built by ofGrid: a biorthogonal monic-Legendre pair with Walsh longitude columns and rational weights). WF and MaskOk are PROVED for the ofGrid record of the model's own buildReal and buildFast bases for every size and padding (wf_ofGrid_buildReal / maskOk_ofGrid_buildReal, wf_ofGrid_buildFast / maskOk_ofGrid_buildFast: the structural zeros of the padded fast tables are a theorem, fastBasisOf_zeros; hypotheses: sqrt 0 = 0, M, L >= 1, even row padding), and exhibited on concrete rational ofGrid records of both layouts (gReal, gFast: M = 2, L = 3, 4 longitudes, padded fast layout) on which rest_steady_dry_grid, explicitTerms_mean0_grid and explicitTerms_mem_grid are instantiated; AnalyticLaws is exhibited only on gT. "
       "Of the 16 fields of the record, the 8 operations are the list-model functions conjugated by the conversion; the l-projection, the unit mode, the eigenvalue and nodal tables are direct definitions.").replace(
       "mask closure (layouts without padding columns; with padding columns the closed set is 'masked except column L', proved and reproduced on the real Grid)",
       "mask closure (layouts without padding columns; with padding columns the closed set PROVED is 'masked rows, padding columns free' (Loose), and on the real Grid only column L is populated: measured by the harness; the failure of strict mask closure there is proved, not_maskClosed_gPad)")
